@@ -4,7 +4,7 @@ CONSTANTS
   GeoSets = {{1}, {4}, {1, 4}}
   PolGeoSets = {{1}, {1, 4}}
   McMixed = {}
-  McMoreSel = {}
+  McMoreSel = FALSE
   Kinds = {0}
   CostBase = 4
   Den = 3
